@@ -44,6 +44,9 @@ structure UserFn where
   blockVarRoots : List String := []   -- root names of the block variables (`symbol_names`) of the lowered if/while/for statements
   starCalls : Bool := false   -- the function text contains a call with a `*args` argument (lowered through `tuple(...)`)
   kwCalls : Bool := false     -- the function text contains a call with keyword / `**kw` arguments (lowered through `dict(...)`)
+  nestedDefOnly : List String := []   -- names of `readLocal` whose nested bindings are all plain local assignments of nested
+                              -- `def`s (not parameters - those leak into the enclosing `bound` on the pinned tree -, not
+                              -- `nonlocal`, not lambda parameters, not comprehension targets)
   deriving Repr, Inhabited
 
 def UserFn.userNames (f : UserFn) : List String := f.bound ++ f.read ++ f.ns
@@ -172,6 +175,15 @@ so the read never reaches a reserved set —, not in the namespace, and a varian
 def clsNestedBound (f : UserFn) (roots : List String) (x : String) : Bool :=
   f.bound.contains x && !f.read.contains x && f.readLocal.contains x && !f.ns.contains x &&
   roots.any (fun r => isVariant r x)
+
+/-- The part of `clsNestedBound` where the coincidence can CHANGE BEHAVIOUR: the nested binding shares the outer variable
+(`nonlocal`) or generated code inside the nested scope refers to the outer generated name (`fscope` inside a lambda or
+comprehension; a lambda entity's own parameters; a nested function's PARAMETER, which the pinned activity analysis leaks
+into the enclosing block's `bound`, so that the block re-initialises the name).  When every nested binding is a plain local
+assignment of a nested `def`, the outer generated name and that local are different variables: the coincidence is syntactic only, and a
+behavioural difference is NOT attributed to this class. -/
+def clsNestedBoundShared (f : UserFn) (roots : List String) (x : String) : Bool :=
+  clsNestedBound f roots x && !f.nestedDefOnly.contains x
 
 /-- class `free_name_outside_namespace_equals_transpiler_name`. -/
 def clsLateFree (f : UserFn) (x : String) : Bool :=
